@@ -240,6 +240,9 @@ func TestVerif_C01_Changes(t *testing.T) {
 	vReadJSON(t, "VERIF_BEH_B", &behs)
 	tw := vOpenTrace(t, "VERIF_TRACE_OUT_B")
 	defer tw.Close()
+	// the four databases must hand out the same sequences: pin the allocator's batch size to 1 (no reserved-then-released
+	// sequences, whose number depends on wall-clock gaps between writes)
+	defer SuspendSequenceBatching()()
 	rnd := vRand()
 	midGroups := vEnvInt("VERIF_C01_MID_GROUPS", 3)
 	finalGroups := vEnvInt("VERIF_C01_FINAL_GROUPS", 12)
